@@ -1,6 +1,7 @@
 package invocation
 
 import (
+	"bytes"
 	"fmt"
 	"io"
 
@@ -54,6 +55,10 @@ func FromSealed(data []byte) (*Token, cid.Cid, error) {
 		return nil, cid.Undef, err
 	}
 
+	if err := envelope.VerifyCanonical(data); err != nil {
+		return nil, cid.Undef, err
+	}
+
 	id, err := envelope.CIDFromBytes(data)
 	if err != nil {
 		return nil, cid.Undef, err
@@ -64,10 +69,15 @@ func FromSealed(data []byte) (*Token, cid.Cid, error) {
 
 // FromSealedReader is the same as Unseal but accepts an io.Reader.
 func FromSealedReader(r io.Reader) (*Token, cid.Cid, error) {
-	cidReader := envelope.NewCIDReader(r)
+	var sealed bytes.Buffer
+	cidReader := envelope.NewCIDReader(io.TeeReader(r, &sealed))
 
 	tkn, err := FromDagCborReader(cidReader)
 	if err != nil {
+		return nil, cid.Undef, err
+	}
+
+	if err := envelope.VerifyCanonical(sealed.Bytes()); err != nil {
 		return nil, cid.Undef, err
 	}
 
